@@ -14,7 +14,7 @@ RULE = ('texts over each predefined (and a few custom) alphabet with upper/lower
         'call and handed over untouched, with the expected rows obtained by the same indexing on Python lists.  Non-trivial = the text '
         'contains a foreign or lower-case character, or the pair is a cross-alphabet pair')
 EXHAUSTIVE = {'quick': False, 'thorough': False}
-TIE = 'correspondence (build_lookup / encode_rows / retarget / change evaluated in Coq on the same inputs)'
+TIE = 'translator+correspondence'
 ASSUMPTIONS = ['str inputs are limited to latin-1 characters (code points 0..255); a non-ASCII character in a str raises '
                'UnicodeEncodeError, which the check counts as an encoding error',
                'alphabets are ASCII (all predefined ones are); NumPy fancy assignment with repeated indices keeps the last value']
